@@ -17,6 +17,7 @@ type node struct {
 	dir  bool
 	data []byte
 	mode fs.FileMode
+	link string // non-empty: a symbolic link to this (absolute or relative) target
 }
 
 // World is one simulated process environment. W == nil means "not simulating":
@@ -91,7 +92,11 @@ func NewWorld(spec *WorldSpec) *World {
 	}
 	for _, f := range spec.Files {
 		w.put(f.Path, f.Dir, f.Data)
+		if f.Link != "" {
+			w.fs[filepath.Clean(f.Path)] = &node{link: f.Link, mode: fs.ModeSymlink | 0o777}
+		}
 	}
+	w.put(tempDirOf(w.Epoch), true, nil)
 	return w
 }
 
@@ -158,7 +163,7 @@ func (w *World) Image() []FileSpec {
 			continue
 		}
 		n := w.fs[k]
-		out = append(out, FileSpec{Path: k, Dir: n.dir, Data: append([]byte(nil), n.data...)})
+		out = append(out, FileSpec{Path: k, Dir: n.dir, Data: append([]byte(nil), n.data...), Link: n.link})
 	}
 	return out
 }
@@ -168,16 +173,30 @@ func (w *World) Image() []FileSpec {
 // (no lexical cleaning: "missing/../a" is ENOENT, "file/../a" is ENOTDIR).
 // When the walk fails at an intermediate component, the returned path lies
 // beneath that component, so that lookup reports the same errno.
-func (w *World) resolve(name string) string {
+func (w *World) resolve(name string) string { return w.walk(name, true, 0) }
+
+// resolveNoFollow is resolve for operations that act on a symbolic link itself
+// (lstat, rename, remove, readlink): the last component is not followed.
+func (w *World) resolveNoFollow(name string) string { return w.walk(name, false, 0) }
+
+func (w *World) walk(name string, followFinal bool, hops int) string {
 	if name == "" {
-		return "/\x00empty-path" // ENOENT
+		return "/\x00enoent/x" // ENOENT (also for the parent, so nothing can be created there)
+	}
+	if hops > 40 {
+		return "/\x00eloop/x"
 	}
 	cur := "/"
-	rest := name
 	if !filepath.IsAbs(name) {
 		cur = filepath.Clean(w.Cwd)
 	}
-	parts := strings.Split(rest, "/")
+	parts := strings.Split(name, "/")
+	last := -1
+	for i, c := range parts {
+		if c != "" && c != "." {
+			last = i
+		}
+	}
 	for i, c := range parts {
 		if c == "" || c == "." {
 			continue
@@ -200,11 +219,25 @@ func (w *World) resolve(name string) string {
 			cur = filepath.Dir(cur)
 			continue
 		}
+		next := cur + "/" + c
 		if cur == "/" {
-			cur = "/" + c
-		} else {
-			cur = cur + "/" + c
+			next = "/" + c
 		}
+		if ln, ok := w.fs[next]; ok && ln.link != "" && (i != last || followFinal || strings.HasSuffix(name, "/")) {
+			// substitute the link target and continue with the remaining components
+			target := ln.link
+			if !filepath.IsAbs(target) {
+				target = cur + "/" + target
+			}
+			rest := strings.Join(parts[i+1:], "/")
+			if rest != "" {
+				target += "/" + rest
+			} else if strings.HasSuffix(name, "/") {
+				target += "/"
+			}
+			return w.walk(target, followFinal, hops+1)
+		}
+		cur = next
 	}
 	if strings.HasSuffix(name, "/") && cur != "/" {
 		if n, ok := w.fs[cur]; ok && !n.dir {
@@ -216,6 +249,9 @@ func (w *World) resolve(name string) string {
 
 // lookup walks the path like the kernel would.
 func (w *World) lookup(p string) (*node, syscall.Errno) {
+	if strings.HasPrefix(p, "/\x00eloop") {
+		return nil, syscall.ELOOP
+	}
 	if p == "/" {
 		return w.fs["/"], 0
 	}
@@ -410,6 +446,8 @@ func (w *World) syncDeltas(seq int) {
 		n := w.fs[k]
 		if n.dir {
 			cur[k] = "d"
+		} else if n.link != "" {
+			cur[k] = "l" + n.link
 		} else {
 			cur[k] = "f" + string(n.data)
 		}
@@ -438,6 +476,9 @@ func (w *World) syncDeltas(seq int) {
 			d.Res = "absent"
 		case b == "d":
 			d.Res = "dir"
+		case b[0] == 'l':
+			d.Res = "link"
+			d.Data = Bytes(b[1:])
 		default:
 			d.Res = "file"
 			d.Data = Bytes(b[1:])
@@ -660,6 +701,9 @@ func (w *World) writeFile(name string, data []byte, perm fs.FileMode) error {
 
 func (w *World) simple(op, name string) (string, *TraceEv, error) {
 	p := w.resolve(name)
+	if op == OpRename || op == OpRemove {
+		p = w.resolveNoFollow(name)
+	}
 	seq, f := w.begin(op, p)
 	ev := &TraceEv{Seq: seq, Op: op, Path: p}
 	if f != nil {
@@ -677,7 +721,7 @@ func (w *World) rename(oldname, newname string) error {
 	if err != nil {
 		return &os.LinkError{Op: "rename", Old: oldname, New: newname, Err: err.(*fs.PathError).Err}
 	}
-	q := w.resolve(newname)
+	q := w.resolveNoFollow(newname)
 	n, e := w.lookup(p)
 	if e == 0 && w.deviceOf(p) != w.deviceOf(q) {
 		e = syscall.EXDEV
@@ -758,7 +802,7 @@ func (w *World) mkdir(name string, all bool) error {
 
 // mkdirRaw is mkdir(2) on the kernel-walked path.
 func (w *World) mkdirRaw(name string) syscall.Errno {
-	p := w.resolve(name)
+	p := w.resolveNoFollow(name)
 	if _, e := w.lookup(p); e == 0 {
 		return syscall.EEXIST
 	} else if e != syscall.ENOENT {
